@@ -9,11 +9,13 @@ HARNESS_OP = "C08"
 FRESH_PROCESS = False          # the C08 operation itself starts one OS process per repetition
 CASE_TIMEOUT = "300s"
 HARNESS_ENV = {"COCA_BIN": os.path.join(vlib.ROOT, "harness", "bin", "coca")}
-REPORTS = ["C01", "C03", "C04", "C07", "C10", "C11", "C12", "C13", "C13fan", "C15", "C16", "C18", "C18svc", "C20"]
+REPORTS = ["C01", "C03", "C04", "C07", "C10", "C11", "C11dup", "C12", "C13", "C13fan", "C15", "C16", "C18", "C18svc", "C20"]
+# reports computed from a code model or a commit list (no parsing): an execution costs a process start, so they are repeated more often
+CHEAP = {"C03", "C04", "C13", "C13fan", "C15"}
 RULE = ("for each report (code model C01, the pass histories of C07 (projects that declare one simple class name in several packages and use it without a single-type import), call graph C03, reverse call graph C04, bad smells + `bs -s type` C10, test "
         "smells C11, API list C12, architecture graph C13 and its fan table (SortedByFan, an API-only report), git summaries C15, cloc tables C16, counts / evaluation / "
         "concepts C18 and the service summary of `coca evaluate` (no model: executions compared with each other only), Go and Python front-ends C20) the inputs of that report's own generator; the same operation is "
-        "executed N times (4 quick, 8 thorough), each in its own OS process, so that every execution draws fresh "
+        "executed N times (4 quick, 8 thorough; three times as often for the reports computed from a model or a commit list), one case of every family of the report's generator first, each in its own OS process, so that every execution draws fresh "
         "map-iteration seeds; the decider compares the normal forms of the N outputs (collections unordered, promised "
         "orders exact up to ties in the sort key); non-trivial = non-empty output; distinct = distinct input")
 TRUSTED_BASE = ["the reports' models are tied to the code by the checks of their own properties; here each run is "
@@ -34,18 +36,26 @@ def cases(seed, tier):
     out = []
     for r in REPORTS:
         m = mod(r)
-        got = []
+        got, first, fams = [], [], set()
         s = seed
         while len(got) < per:
             batch = [c for c in m.cases(s, "quick") if "impl_out" not in c]
+            # one case of every family (distinct tag set) of the report's generator first ...
+            for c in batch:
+                key = tuple(c.get("tags", []))
+                if key not in fams and len(first) < 2 * per:
+                    fams.add(key); first.append(c)
+            # ... then cases at a regular stride
             step = max(1, len(batch) // per) if tier == "quick" else 1
-            got += batch[::step]
+            got += [c for c in batch[::step] if not any(c is f for f in first)]
             s += 1000003
-        for c in got[:per]:
+        chosen = first + got[:max(0, per - len(first) // 2)]
+        for c in chosen:
+            reps = n * 3 if r in CHEAP else n
             hop = c.get("harness_op", m.HARNESS_OP)
             hin = m.harness_input(c) if hasattr(m, "harness_input") else c["input"]
             out.append({"name": "%s:%s" % (r, c["name"]), "tags": [r] + list(c.get("tags", [])),
-                        "input": [r, c["input"]], "hop": hop, "hin": hin, "n": n, "inner": c})
+                        "input": [getattr(m, "MODEL_REPORT", r), c["input"]], "hop": hop, "hin": hin, "n": reps, "inner": c})
     return out
 
 def harness_input(c):
